@@ -253,7 +253,79 @@ pub fn check_pre(bc: &BuildCase, pre: u8, fam: &str, obs: &mut Obs) -> Result<()
     Ok(())
 }
 
+/// The dark-share term steps at multiples of 5 %: a candidate whose dark count sits exactly on a step (or one module
+/// beside it) is where a rewritten table, a rounding or a symmetric shortcut shows. Random symbols stay within a few
+/// per cent of 50 % and the extreme textures are far out, so the candidate of mask `m` is steered here: `k` data-area
+/// modules (a seeded permutation) dark and the rest light under `m`, with `k` corrected after every build by the
+/// distance of that candidate's dark count from the target (the error-correction modules move with every change, so
+/// this is a search: at most `tries` builds). Every build of the search is checked in full like any other case.
+/// target = ceil(t x total / 100) + delta: with delta 0 the share has just reached t % (exactly t % where t x total is a
+/// multiple of 100: sizes divisible by 5), with delta -1 it is just below.
+pub fn check_ratio_boundary(v: usize, level: Level, m: u8, t: usize, delta: i64, seed: u64, obs: &mut Obs) -> Result<(), Fail> {
+    use crate::fq::Opts;
+    let g = geometry(v);
+    let n = g.size;
+    let total = n * n;
+    let target = ((t * total + 99) / 100) as i64 + delta;
+    // seeded permutation of the data-area modules
+    let mut cells: Vec<(usize, usize)> = g.order.clone();
+    let mut x = crate::engine::splitmix(seed);
+    for i in (1..cells.len()).rev() {
+        x = crate::engine::splitmix(x);
+        cells.swap(i, (x % (i as u64 + 1)) as usize);
+    }
+    let fixed_guess = (total - cells.len()) as i64 / 2;
+    let mut k: i64 = (target - fixed_guess).clamp(0, cells.len() as i64);
+    let tries = 60;
+    let mut hit = false;
+    for round in 0..tries {
+        let cons: Vec<(usize, usize, bool)> = cells.iter().enumerate().map(|(i, &(r, c))| (r, c, (i as i64) < k)).collect();
+        let (payload, _) = crate::gens::steer_payload(v, level, m, &cons, &[]);
+        let bc = BuildCase::new(payload, Opts { mode: Some(Mode::Byte), level: Some(level), version: Some(v), mask: None });
+        // how dark is the candidate of mask m?
+        let b = bc.builder();
+        let rec = match catch(|| {
+            verif_hooks::arm();
+            let _ = b.build().map(|q| q.size);
+            verif_hooks::take()
+        }) {
+            Ok(r) => r,
+            Err(_) => {
+                let _ = catch(|| verif_hooks::take());
+                obs.label("no_symbol:panic");
+                return Ok(());
+            }
+        };
+        let Some(c) = rec.iter().find(|c| mask_no(c.mask) == m) else { break };
+        let d = c.matrix.data[..total].iter().filter(|x| x.value()).count() as i64;
+        if (d - target).abs() <= 1 || round + 1 == tries {
+            // on the step, or one module beside it: both sides of the step are wanted
+            check_pre(&bc, 0, "dark_ratio_boundary", obs)?;
+        }
+        if d == target {
+            hit = true;
+            break;
+        }
+        let k2 = (k + target - d).clamp(0, cells.len() as i64);
+        if k2 == k {
+            // cannot move further (the target is out of reach for this version): another draw of the error correction
+            cells.rotate_left(1);
+        }
+        k = k2;
+    }
+    obs.label(if hit { "dark_ratio_boundary:hit" } else { "dark_ratio_boundary:not_reached" });
+    if hit {
+        obs.label(&format!("dark_ratio_boundary:{}%{}", t, if (t * total) % 100 == 0 && delta == 0 { "_exactly" } else if delta < 0 { "_just_below" } else { "_just_reached" }));
+        obs.nontrivial(crate::engine::hash_bytes(format!("ratio|{}|{}|{}|{}|{}", v, level.name(), m, t, delta).as_bytes()));
+    }
+    Ok(())
+}
+
 pub fn replay(_e: &Engine, case: &Value, obs: &mut Obs) -> Result<(), Fail> {
+    if let Some(r) = case.get("ratio_boundary") {
+        let g = |k: &str| r.get(k).and_then(|x| x.as_i64()).unwrap_or(0);
+        return check_ratio_boundary(g("version").clamp(1, 40) as usize, Level::from_index(g("level").clamp(0, 3) as usize), g("mask").clamp(0, 7) as u8, g("percent").clamp(1, 99) as usize, g("delta"), r.get("seed").and_then(|x| x.as_str()).and_then(|x| x.parse().ok()).unwrap_or(0), obs);
+    }
     let b = BuildCase::from_json(case).ok_or_else(|| Fail { sig: "bad_replay".into(), msg: "cannot parse case".into() })?;
     match case.get("prelude").and_then(|x| x.as_u64()) {
         Some(p) => check_pre(&b, p as u8, "replay", obs),
@@ -272,7 +344,7 @@ pub fn run(e: &'static Engine) {
          vs model differences are diagnostic only (counter score_model_mismatch). Non-trivial: best two candidates within 10 points, \
          or a row-only scorer would have a different arg-min; distinct by case hash.",
     );
-    e.extend_rule("enumerated extreme textures (flat, mask-pattern, chequer, stripe and finder-ratio fills in both polarities: the largest penalty terms a version can produce), each after a generated prelude.");
+    e.extend_rule("enumerated extreme textures (flat, mask-pattern, chequer, stripe and finder-ratio fills in both polarities: the largest penalty terms a version can produce), each after a generated prelude. Part dark_ratio_boundary: the candidate of a generated mask is steered (a search of at most 60 builds, each checked) until its dark count sits exactly on a 5 % step of the dark-share term (30..70 %, exactly t % where the size is divisible by 5) or one module below it.");
     e.assume("hook: verif_hooks::record_candidate records the candidate exactly as scored; inert unless armed");
     e.assume("'10 per 5% step' is read on the floored integer percentage as in the crate's documented table");
     crate::engine::run_regress(e, &|c, o| replay(e, c, o));
@@ -359,5 +431,21 @@ pub fn run(e: &'static Engine) {
     }
     e.par(jobs);
     super::common::extreme_parts(e, |c, fam, o| check_pre(c, (c.input.len() % 5) as u8, fam, o));
+    // candidates steered onto the 5 % steps of the dark-share term
+    let versions: Vec<usize> = if e.tier == crate::engine::Tier::Thorough { vec![1, 2, 3, 4, 7, 12, 17, 22] } else { vec![1, 2, 7, 12] };
+    let mut jobs: Vec<Job> = Vec::new();
+    for v in versions {
+        for t in [30usize, 35, 40, 45, 50, 55, 60, 65, 70] {
+            jobs.push(Box::new(move |jc: &mut JobCtx| {
+                let strat = (0usize..2, 0u8..8, prop_oneof![2 => Just(0i64), 1 => Just(-1i64)], any::<u64>()).no_shrink();
+                let per = jc.engine.tier.pick(3, 12);
+                jc.run_prop((9 << 20) + (v * 100 + t) as u64, &strat, per, move |(li, m, d, s)| json!({"ratio_boundary": {"version": v, "level": li, "mask": m, "percent": t, "delta": d, "seed": s.to_string()}}), move |(li, m, d, s), o| {
+                    o.label("part:dark_ratio_boundary");
+                    check_ratio_boundary(v, Level::from_index(*li), *m, t, *d, *s, o)
+                });
+            }));
+        }
+    }
+    e.par(jobs);
     e.set_exhaustive(false, "all 160 (version, level) pairs x all 8 candidates per build; payloads are sampled");
 }
